@@ -156,22 +156,27 @@ def run (args : List Sexp) : Sexp :=
       -- ingress-controller lines: an arbitrary unlabeled pod in a namespace unknown to the input
       let icPod : Pod := { ns := "ingress-controller-ns", name := "ingress-controller", labels := [], ports := [], fake := true }
       let ic : End := .pod icPod [(nsNameLabelKey, "ingress-controller-ns")]
-      let icRes := wls.filterMap fun w =>
-        match w.e with
-        | .pod p _ =>
-          let ports := ((ingressPorts objs p).mergeSort (· ≤ ·)).eraseDups
-          if !targeted objs p then none
-          else
-            let ok := ports.filter fun x => allowed v ic w.e .TCP x
-            some (w.name, ok)
-        | _ => none
-      let icLines := icRes.filterMap fun (n, ok) =>
-        if ok.isEmpty then none
-        else some ("{ingress-controller} " ++ n ++ " " ++ us (connStr [(Proto.TCP, ok.foldl (fun acc x => CSet.addIv ⟨x, x⟩ acc) [])]))
-      let blockedL := icRes.filterMap fun (n, ok) => if ok.isEmpty then some n else none
+      let icFor (lenient : Bool) : List String × List String :=
+        let icRes := wls.filterMap fun w =>
+          match w.e with
+          | .pod p _ =>
+            let ports := ((ingressPorts objs p lenient).mergeSort (· ≤ ·)).eraseDups
+            if !targeted objs p then none
+            else
+              let ok := ports.filter fun x => allowed v ic w.e .TCP x
+              some (w.name, ok)
+          | _ => none
+        (icRes.filterMap fun (n, ok) =>
+          if ok.isEmpty then none
+          else some ("{ingress-controller} " ++ n ++ " " ++ us (connStr [(Proto.TCP, ok.foldl (fun acc x => CSet.addIv ⟨x, x⟩ acc) [])])),
+         icRes.filterMap fun (n, ok) => if ok.isEmpty then some n else none)
+      let (icLines, blockedL) := icFor false
+      let (icLenient, blockedLenient) := icFor true
       let lines := lines ++ icLines
       .list ([.atom "wspec", id,
         .list (.atom "blocked" :: (sortStrs blockedL).map .atom),
+        .list (.atom "lenient-blocked" :: (sortStrs blockedLenient).map .atom),
+        .list (.atom "lenient-ic" :: (sortStrs icLenient).map fun l => .list ((l.splitOn " ").map .atom)),
         .list (.atom "conflicts" :: (conflicts objs).map .atom),
         .list [.atom "named-port-may-meet-ip", .atom (if namedPortMayMeetIP objs then "1" else "0")],
         .list (.atom "nonuniform" :: nonuni.map fun (lo, hi) => .atom (ipStr lo ++ "-" ++ ipStr hi)),
